@@ -247,6 +247,9 @@ def family(tier='quick'):
     out.append(T('l:double_blanks', 'root packet Root {\n    string k `two  blanks\tand a tab`,\n    match k as b {\n        "LO  " : Other, // two  blanks\n        ["A  B", "C\tD"] : Third,\n    },\n}\n\n' + AUX))
     out.append(T('l:no_final_newline', 'root packet Root {\n    u8 a,\n}\n\npacket Other {\n    u8 v,\n}\npacket AVeryLongLastLineWithoutALineTerminator { u8 %s, u16 z, }' % ('w' * 60)))
     out.append(T('l:acronym_whole_names', 'options {\n    GoPackage = "msg";\n    JavaPackage = "com.x";\n}\n\nroot packet Root {\n    u32 id,\n    string url,\n    u8 ip,\n    u16 ttl,\n    Uid uid,\n}\n\npacket Uid {\n    u64 Id,\n    u8 api,\n}\n'))
+    out.append(T('l:faults_no_final_newline', 'root packet Root {\n    Nope a,\n}\n\npacket A {\n    u8 x,\n}\n\npacket A {\n    u16 y,\n}\npacket AVeryLongLastLineWithoutALineTerminator { u8 %s, u16 z, }' % ('w' * 60),
+                 [('undeclared-packet', 2, 2), ('dup-packet', 9, 11)], note='diagnostics in a file whose last line is long and has no line terminator'))
+    out.append(T('l:huge_comment', '// %s\nroot packet Root {\n    u8 a,\n}\n' % ('h' * 70000), note='a text of more than 64 KiB (one long comment): size limits of an entry point show'))
     out.append(T('o:dup_default_first', 'options {\n    LittleEndian = false;\n    LittleEndian = true;\n}\n\nroot packet Root {\n    u8 a,\n}\n', [('dup-option', 3, 3)]))
     out.append(T('o:dup_default_pfx', 'options {\n    StringPrefixLenType = u16;\n    ArrayPrefixLenType = u16;\n    StringPrefixLenType = u8;\n}\n\nroot packet Root {\n    string a,\n}\n', [('dup-option', 4, 4)]))
     out.append(T('o:dup_default_pad', 'options {\n    FixedStringPadFromLeft = false;\n}\n\noptions {\n    FixedStringPadFromLeft = true;\n}\n\nroot packet Root {\n    char[4] a,\n}\n', [('dup-option', 6, 6)]))
